@@ -80,6 +80,21 @@ func NewGen(w *World, seed uint64, profile string) *Gen {
 	for _, o := range g.Owners {
 		g.setup = append(g.setup, Op{K: "payaddr", Creator: o, Did: o + 1})
 	}
+	if profile == "faults" {
+		// few providers, so that each holds shards of several orders
+		g.Nodes = []int{1, 2, 3}
+		g.setup = nil
+		for _, i := range g.Nodes {
+			g.setup = append(g.setup, Op{K: "create", Creator: i})
+		}
+		for _, i := range g.Nodes {
+			g.setup = append(g.setup, Op{K: "reset", Creator: i, Status: 15, PeerOk: &t})
+			g.setup = append(g.setup, Op{K: "addv", Creator: i, Size: 50_000_000})
+		}
+		for _, o := range g.Owners {
+			g.setup = append(g.setup, Op{K: "payaddr", Creator: o, Did: o + 1})
+		}
+	}
 	if profile == "auth" {
 		// an adversary (account 6) runs its own node whose self-declared transaction addresses
 		// include its hot key (account 11) and the addresses of the honest gateways
@@ -434,7 +449,11 @@ func (g *Gen) tx() Op {
 		return g.stakingTx()
 	}
 	if g.Profile == "did" && g.R.Chance(80) {
-		return g.didTx()
+		op := g.didTx()
+		if op.Sid != 0 {
+			op.SidTs = g.W.SidTimestamp(op.Sid)
+		}
+		return op
 	}
 	if g.Profile == "lifecycle" {
 		return g.lifecycleTx()
